@@ -412,6 +412,7 @@ pub fn check_case(c: &Case, rep: &mut Report) {
 }
 
 pub fn run(cfg: &Cfg) -> Report {
+    crate::tls::prewarm(false);
     let seed = cfg.seed;
     let mut total = Report::new();
     let plan: Vec<(u64, u64)> = vec![(0, cfg.n(20_000, 1_000_000)), (1, if cfg.quick() { 3000 } else { 32766 }), (2, cfg.n(600, 20_000)), (3, cfg.n(10_000, 300_000))];
